@@ -61,7 +61,7 @@ def check_run(ctx, case, data, res, tmpdir):
         # the source failed before the stop: the tokenizer thread is gone and did not flush; what remains to be decided is
         # that the stop still ends every thread (checked above) and that nobody saw anything that was never detected
         ctx.count("stops_after_an_injected_source_fault")
-        read = b"".join(b for b in res.inner_blocks if b is not None)
+        read = P.consumed_audio(case, res.inner_blocks)
         full = P.split_reference(read, case)
         for o in res.observers:
             if o.vf_kind == "rec":
@@ -74,7 +74,13 @@ def check_run(ctx, case, data, res, tmpdir):
         return False
     at_stop = h["reads_started_at_stop"]
     total_reads = res.reads_started
-    nblocks_total = -(-len(data) // (case["block"] * bps))
+    if case.get("hop"):
+        from ..models import frame as FR
+
+        ctx.count("stops_over_an_overlapping_reader")
+        nblocks_total = len(FR.blocks(len(data) // bps, case["block"], case["hop"]))
+    else:
+        nblocks_total = -(-len(data) // (case["block"] * bps))
     stopped_early = at_stop <= nblocks_total
     if stopped_early:
         ctx.count("stops_before_stream_end")
@@ -89,11 +95,12 @@ def check_run(ctx, case, data, res, tmpdir):
         ctx.violation("tokenizer-saw-different-blocks-than-the-reader-produced", w)
         return False
     blocks = [b for b in inner if b is not None]
-    prefix = b"".join(blocks)
-    if prefix != data[: len(prefix)]:
+    prefix = b"".join(blocks)  # what the saved stream must hold
+    consumed = P.consumed_audio(case, blocks)  # what was read of the input
+    if consumed != data[: len(consumed)]:
         ctx.violation("blocks-read-are-not-a-prefix-of-the-input", w)
         return False
-    expected = P.split_reference(prefix, case)
+    expected = P.split_reference(consumed, case)
     dets = [(d.id, d.start, d.end) for d in res.detections]
     exp3 = [(i, s, e) for i, s, e, _ in expected]
     ctx.count("detections_expected", len(expected))
@@ -186,6 +193,8 @@ def enumerate_stops(ctx, conf, tmpdir):
         base["v"] = base["v"][: conf["max_blocks"]]
         if not base["v"]:
             base["v"] = [1, 1, 0]
+        if si % 3 == 1 and base["block"] > 1 and not base["partial"]:
+            base["hop"] = rng.randint(1, base["block"] - 1)  # every stop point of an overlapping reader too
         if "rec" not in base["observers"]:
             base["observers"] = list(base["observers"]) + ["rec"]
             base["observer_timeouts"] = list(base["observer_timeouts"]) + [0.2]
@@ -471,7 +480,7 @@ def run_shard(ctx):
         from ..sched import strategies as SS
 
         for i in range(conf["lagging_saver_runs"]):
-            case = P.random_pipeline_case(rng, max_windows=60, want_saver=True, want_stop=True)
+            case = P.random_pipeline_case(rng, max_windows=60, want_saver=True, want_stop=True, allow_hop=True)
             base_v = list(case["v"]) or [1, 1, 0]
             case["v"] = (base_v * (60 // len(base_v) + 1))[: rng.randint(30, 60)]
             case["partial"] = 0
@@ -494,7 +503,7 @@ def run_shard(ctx):
         rng = ctx.rng("faults")
         for i in range(conf["fault_runs"]):
             # a source that raises in the middle of the stream, then the stop: every thread must still end
-            case = P.random_pipeline_case(rng, max_windows=14, want_stop=True)
+            case = P.random_pipeline_case(rng, max_windows=14, want_stop=True, allow_hop=True)
             nb = len(case["v"])
             case["fault_at_read"] = rng.randint(1, max(1, nb))
             case["stop"] = {"after_reads": rng.randint(case["fault_at_read"], nb + 2), "extra_steps": rng.choice((0, 2, 5))}
@@ -541,7 +550,7 @@ def inconclusive(merged, tier):
     c = merged["counters"]
     need = ["scheduled_runs", "stop_points_enumerated", "streams_with_every_stop_point_covered", "stops_before_stream_end",
             "stops_with_a_read_in_flight", "observer_logs_checked", "saved_streams_checked", "joiner_files_checked",
-            "line_mode_runs", "instruction_mode_runs", "all_module_line_mode_runs", "sigint_children_checked", "timeouts_fired", "systematic_schedules", "systematic_pipelines_fully_enumerated", "stops_after_an_injected_source_fault", "lagging_saver_runs", "huge_stop_runs", "unencodable_stop_runs"]
+            "line_mode_runs", "instruction_mode_runs", "all_module_line_mode_runs", "sigint_children_checked", "timeouts_fired", "systematic_schedules", "systematic_pipelines_fully_enumerated", "stops_after_an_injected_source_fault", "stops_over_an_overlapping_reader", "lagging_saver_runs", "huge_stop_runs", "unencodable_stop_runs"]
     out = [f"monitor never observed {k}" for k in need if c.get(k, 0) == 0]
     if c.get("inconclusive_runs", 0) > max(3, c.get("scheduled_runs", 0) // 50):
         out.append(f"{c['inconclusive_runs']} runs hit a step/wall cap or the sigint driver's watchdog")
